@@ -362,22 +362,22 @@ EXTRA = {
             'None` test; neighbour and correlation lists are zipped in '
             'lock-step; zero norms are replaced on a test of the norm. Settings the property depends on are bound at every call whose callee would otherwise fall back to a default. The centroids voted on divide by a cell count floored at one. A run setting (iteration count, factor) is never replaced on a condition inside the pipeline.'),
     'C04': ('shared random stream modelled as an order-sensitive '
-            'accumulator; parameter forwarding along the call chain',
+            'accumulator; parameter forwarding along the call chain; census of worker-count special cases',
             'Also: a draw from a shared generator inside a loop whose '
             'visiting order carries an order label yields a labelled '
             'value; key order of nested dicts is tracked; numeric '
             'accumulation in a labelled visiting order (also inside a '
             'callee, also through lists of lists) is a labelled value; '
             'selecting a loop element under a test in a labelled loop '
-            'labels the selection. Settings the property depends on are bound at every call whose callee would otherwise fall back to a default.'),
+            'labels the selection. Settings the property depends on are bound at every call whose callee would otherwise fall back to a default. The worker count is tested against a constant only at the two confirmed serial-or-parallel sites.'),
     'C05': ('write-cursor discipline, loop-coverage must-pass, exact '
-            'tiling of chunked loops, index-space typing of numpy code; permutation pairing of sorted reads; parameter forwarding along the call chain; request-order dependence of the readers; buffer-window use',
+            'tiling of chunked loops, index-space typing of numpy code; permutation pairing of sorted reads; parameter forwarding along the call chain; request-order dependence of the readers; buffer-window use; sibling agreement of the returns of range readers; placement by column index',
             'Also decides: write cursors of the assembly loops are used, '
             'advanced and recorded in every iteration; chunked loops tile '
             'their axis (window = step, clamp = bound, step and bound on '
             'the same axis); in the transposition, slices and gathers are '
             'applied in the index space they were computed in; pointer '
-            'values are never scatter positions. Rows read in sorted order are put back with the matching permutation, once, and before every return. Settings the property depends on are bound at every call whose callee would otherwise fall back to a default. A reader answers from the requested row list itself, not only from its sorted / merged form. A re-used read buffer is consumed through the part just filled.'),
+            'values are never scatter positions. Rows read in sorted order are put back with the matching permutation, once, and before every return. Settings the property depends on are bound at every call whose callee would otherwise fall back to a default. A reader answers from the requested row list itself, not only from its sorted / merged form. A re-used read buffer is consumed through the part just filled. CSR range readers return re-based pointers on every path and densify by column index.'),
     'C07': ('ordering-key provenance; column-gather detection on symbolic '
             'terms; parameter forwarding along the call chain; dtype idioms of the normalisation; integer-width rule (shared with C16); column selection by name',
             'Also decides: no ordering step on the way to the per-parent '
@@ -389,13 +389,13 @@ EXTRA = {
             'unknown-to-reference test is made on the unfiltered marker '
             'table. Gene positions stored with an explicitly chosen integer type are sized from the list they point into. Settings the property depends on are bound at every call whose callee would otherwise fall back to a default. A rejection for an empty marker list also looks at the number of children. Marker columns are taken from the query by a name-derived fancy index.'),
     'C09': ('loop-coverage must-pass, merge initial value, guard form, '
-            'exact tiling; key-space agreement of the dataset tables; parameter forwarding along the call chain; dtype idioms of the statistics; row-position provenance (rule of C10)',
+            'exact tiling; key-space agreement of the dataset tables; parameter forwarding along the call chain; dtype idioms of the statistics; row-position provenance (rule of C10); threshold polynomials of the counting statistics',
             'Also decides: every chunk reaches _process_chunk; merged '
             'tables start from zeros; files are compared by gene sequence '
             'before column-wise addition; chunk windows tile the rows; '
             'per-file state of a worker is refreshed on a test of the '
             'file; files merged by position are compared on their '
-            'complete numbering tables. The ABC front end keys its dataset tables by the label as given. Settings the property depends on are bound at every call whose callee would otherwise fall back to a default. Sums and CPM denominators are not cast back to the element type of the raw counts. Rows a tree built from the reference file assigns to leaves are file positions.'),
+            'complete numbering tables. The ABC front end keys its dataset tables by the label as given. Settings the property depends on are bound at every call whose callee would otherwise fall back to a default. Sums and CPM denominators are not cast back to the element type of the raw counts. Rows a tree built from the reference file assigns to leaves are file positions. gt0 / gt1 / ge1 are column counts above 0, above 1 and above 1 - eps.'),
     'C10': ('loop-coverage must-pass in the tree builder; must-derive of the leaf pairs; row-position provenance of the h5ad tree builder; unique-insert guard of the release reader',
             'Also decides: the builder records every parent-child link of '
             'every row before validation (no early exit); tables filled '
@@ -407,34 +407,34 @@ EXTRA = {
             'loops, index spaces of the transposition, tiling of all '
             'chunked loops in the anchored modules. Sorted row reads are un-sorted before every return. A cached reader is keyed by everything it was built from; no HDF5 name is created twice in a group. A slice store in a loop whose source changes moves with the loop.'),
     'C15': ('producer/consumer agreement of CSV column names, '
-            'loop-coverage; shared-mutable idiom; memo-key completeness of name look-ups; provenance of the embedded marker table',
+            'loop-coverage; shared-mutable idiom; memo-key completeness of name look-ups; provenance of the embedded marker table; writer census of the directly_assigned flag',
             'Also decides: the confidence-column rename spells names as '
             'blob_to_df builds them; every cell gets a CSV row; name '
             'lookups are keyed by (level, label); the CSV is written '
-            'with the stored tree. No per-level table is built from one shared mutable object. Readable names memoised on the tree are keyed by level as well as label. The embedded marker table is enumerated from the tree searched.'),
-    'C16': ('exact tiling of the scanning loops, lookup provenance; must-pass-through of the mapper call; parameter forwarding along the call chain; abs-of-extremum idiom; HDF5 name typestate; integer-width rule',
+            'with the stored tree. No per-level table is built from one shared mutable object. Readable names memoised on the tree are keyed by level as well as label. The embedded marker table is enumerated from the tree searched. The flag the HDF5 output stores once per level is written uniformly for all cells of a level.'),
+    'C16': ('exact tiling of the scanning loops, lookup provenance; must-pass-through of the mapper call; parameter forwarding along the call chain; abs-of-extremum idiom; HDF5 name typestate; integer-width rule; regex-AST check of the Ensembl pattern',
             'Also decides: min/max, integrality and rounding scans tile '
             'their matrix exactly; gene identifiers are looked up as '
             'given and clipped afterwards; every window of a rounding '
-            'loop is written. Every verdict of the gene renaming step is given after the mapper was consulted. Settings the property depends on are bound at every call whose callee would otherwise fall back to a default. Integrality tests take the largest absolute deviation; no HDF5 name is created twice in a group (finding F8). The integer type is chosen from the np.round-ed extremes against both bounds of the type.'),
+            'loop is written. Every verdict of the gene renaming step is given after the mapper was consulted. Settings the property depends on are bound at every call whose callee would otherwise fall back to a default. Integrality tests take the largest absolute deviation; no HDF5 name is created twice in a group (finding F8). The integer type is chosen from the np.round-ed extremes against both bounds of the type. The Ensembl pattern has a literal dot as version separator and is applied with fullmatch.'),
     'C17': ('back-fill provenance (shared with C01); parameter forwarding along the call chain; tree / parent-list agreement; superset tolerance of per-level options',
             'Also decides: the dropped level is back-filled through the '
             'parent table of that level; node tables are keyed by (level, '
             'label); zipped lists are in lock-step. Settings the property depends on are bound at every call whose callee would otherwise fall back to a default. A selection call receives parents listed from the very tree it is given. Per-level options written for the full taxonomy are not rejected for naming a dropped level.'),
     'C18': ('sign analysis of cell-count denominators; merge rules shared '
-            'with C09; parameter forwarding along the call chain; gene-list rule shared with C11',
+            'with C09; parameter forwarding along the call chain; gene-list rule shared with C11; tree-version provenance (rule of C01)',
             'Also decides: no division by a possibly-zero cell count; '
-            'worker buffers are each added once. Settings the property depends on are bound at every call whose callee would otherwise fall back to a default. The gene list a later stage hands to the reference-marker stage becomes positions of the reference gene table.'),
+            'worker buffers are each added once. Settings the property depends on are bound at every call whose callee would otherwise fall back to a default. The gene list a later stage hands to the reference-marker stage becomes positions of the reference gene table. Levels not voted on are inferred from the tree as stored in the reference file.'),
     'C19': ('library-level freshness of listed directories and scratch '
-            'file names; parameter forwarding along the call chain; existence-test order of the statistics-file search; creating write among the writes of an output',
+            'file names; parameter forwarding along the call chain; existence-test order of the statistics-file search; creating write among the writes of an output; finaliser must-pass',
             'Also decides, per function: a listed directory was created '
             'under a unique name by the lister (or handed over whole); no '
-            'predictable file name directly under a scratch parameter. Settings the property depends on are bound at every call whose callee would otherwise fall back to a default. (two documented exceptions where a callee creates its own scratch directory). The recorded statistics path is tried before a same-named file beside the marker file. An output file that is appended to is first created or replaced by the stage.'),
+            'predictable file name directly under a scratch parameter. Settings the property depends on are bound at every call whose callee would otherwise fall back to a default. (two documented exceptions where a callee creates its own scratch directory). The recorded statistics path is tried before a same-named file beside the marker file. An output file that is appended to is first created or replaced by the stage. Objects that own a scratch directory release it in their finaliser on every normally returning path.'),
     'C20': ('value identity inside the sanitiser; ancestor walk of the '
-            'exposure test; exception rendering of path-bearing messages; parameter forwarding along the call chain',
+            'exposure test; exception rendering of path-bearing messages; parameter forwarding along the call chain; module path relative on every path',
             'Also decides: the replaced text is the word as it occurs, '
             'the replacement is a bare or package-relative name, and '
-            'is_exposed tests every ancestor. Path-bearing messages are not raised as KeyError (repr-rendered). Settings the property depends on are bound at every call whose callee would otherwise fall back to a default.'),
+            'is_exposed tests every ancestor. Path-bearing messages are not raised as KeyError (repr-rendered). Settings the property depends on are bound at every call whose callee would otherwise fall back to a default. Every alternative of the recorded module path is relative to the package.'),
     'C01': ('must-pass-through of the failing verdicts of the pre-flight reconciliation; single-child exemption (rule of C08)',
             "Also decides: the marker cache / taxonomy reconciliation can fail only after a parent of the run Single-child parents, the root included, are exempt from needing markers wherever the table is validated.'s tree was found without markers."),
     'C03': ('parameter forwarding along the call chain; vote-counter capacity (rule of C02)',
